@@ -56,7 +56,36 @@ func handleExt(c *Conn, cfg SeederCfg, st *SeederState, m refwire.Msg) {
 			if end > len(cfg.Metadata) {
 				end = len(cfg.Metadata)
 			}
-			c.Send(refwire.MetadataMsg(rid, 1, int(pi), len(cfg.Metadata), cfg.Metadata[off:end]))
+			data := append([]byte(nil), cfg.Metadata[off:end]...)
+			total := len(cfg.Metadata)
+			switch cfg.MetaLie {
+			case "stall":
+				return
+			case "reject":
+				c.Send(refwire.MetadataMsg(rid, 2, int(pi), -1, nil))
+				return
+			case "wrong-total-size":
+				total += 1 + int(pi)
+			case "short-piece":
+				if len(data) > 1 {
+					data = data[:len(data)-1]
+				}
+			case "long-piece":
+				data = append(data, 'e')
+			case "dup":
+				c.Send(refwire.MetadataMsg(rid, 1, int(pi), total, data))
+			case "unrequested-index":
+				c.Send(refwire.MetadataMsg(rid, 1, int(pi)+7, total, data))
+			case "garbage":
+				c.Send(refwire.Msg{ID: refwire.Extended, ExtID: rid, Data: []byte("d8:msg_typei1e5:piecei0e10:total_sizei-5eeXXXX")})
+				c.Send(refwire.Msg{ID: refwire.Extended, ExtID: rid, Data: []byte("not bencode at all")})
+				return
+			case "wrong-content":
+				for i := range data {
+					data[i] ^= 0x20
+				}
+			}
+			c.Send(refwire.MetadataMsg(rid, 1, int(pi), total, data))
 		}
 	case 4: // our ut_pex id
 		st.Mu.Lock()
